@@ -80,6 +80,7 @@ public:
   void add_states(u64 s, u64 t, u64 c) { states_ += s; transitions_ += t; compared_ += c; }
   void outcome(u64 h) { std::lock_guard<std::mutex> g(m_); if(outcomes_.size() < (1u<<20)) outcomes_.insert(h); }
   void set_exhaustive(bool e) { exhaustive_ = e; }
+  std::string prop_id;                 // set by main(); used for the generic '<id>.trap' class of the sweep helpers
   void cap(std::string const& c) { std::lock_guard<std::mutex> g(m_); caps_.push_back(c); exhaustive_ = false; }
   u64 violations() const;
   void write_json(FILE* f, Options const& o, double wall) const;
@@ -118,6 +119,7 @@ struct DirectViol { Recorder& r; template<typename F> void hit(int cl, u64 ord, 
 void parallel_blocks(size_t nblocks, int threads, std::function<void(size_t blk, int tid)> const& fn);
 double now_s();
 extern double g_start, g_deadline;
+class Recorder; extern Recorder* g_rec;
 inline bool past_deadline() { return now_s() - g_start > g_deadline; }
 
 //------------------------------------------------------------------ alphabet
@@ -165,6 +167,14 @@ u64 parse_u64(std::string const& s);
 
 //------------------------------------------------------------------ sweep helpers (all block-parallel, deterministic order numbers)
 // chk(x, got, order, LocalViol&) is called for every element.
+// A trap inside a sweep is a verdict of the code under test (class "<id>.trap"), never a crash of the checker: the batch is
+// re-run element by element under the guard and the trapping inputs are recorded.
+template<typename V> void report_trap(Recorder& rec, V& lv, Shim* s, bool binary, int op, i64 a, i64 b, int sig, u64 order)
+  {
+  int c = rec.cls(rec.prop_id + ".trap");
+  lv.hit(c, order, [=]{ Example e; e.entry = std::string(binary ? "binary" : "unary") + " entry point #" + std::to_string(op); e.cfg = s->name; e.inputs = {{"a", to_s(a)}}; if( binary ) e.inputs.push_back({"b", to_s(b)});
+    e.expected = "returns normally"; e.got = "killed by signal " + std::to_string(sig); e.rcase = binary ? "trap_bin" : "trap_un"; e.rin = { to_s(op), to_s(a), to_s(b) }; return e; });
+  }
 template<typename Chk> u64 sweep_un_set(Shim* s, int op, std::vector<i64> const& X, int threads, Recorder& rec, u64 order_base, Chk chk)
   {
   const size_t B = 4096;
@@ -173,8 +183,12 @@ template<typename Chk> u64 sweep_un_set(Shim* s, int op, std::vector<i64> const&
     LocalViol lv(rec);
     size_t lo = blk * B, hi = std::min(X.size(), lo + B);
     std::vector<i64> out(hi - lo);
-    s->fm_un_batch(op, X.data() + lo, hi - lo, out.data());
-    for( size_t i = lo; i < hi; ++i ) chk(X[i], out[i - lo], order_base + i, lv);
+    int sig = guarded([&]{ s->fm_un_batch(op, X.data() + lo, hi - lo, out.data()); });
+    for( size_t i = lo; i < hi; ++i )
+      {
+      if( sig ) { i64 g = 0; int sg = guarded([&]{ g = s->fm_un(op, X[i]); }); if( sg ) { report_trap(rec, lv, s, false, op, X[i], 0, sg, order_base + i); continue; } out[i - lo] = g; }
+      chk(X[i], out[i - lo], order_base + i, lv);
+      }
     });
   rec.add_states(X.size(), X.size(), X.size());
   return X.size();
@@ -189,8 +203,13 @@ template<typename Chk> u64 sweep_un_range(Shim* s, int op, i64 lo, i64 hi, int t
     i64 b0 = lo + static_cast<i64>(blk * B);
     size_t n = static_cast<size_t>(std::min<u64>(B, total - blk * B));
     std::vector<i64> out(n);
-    s->fm_un_range(op, b0, n, out.data());
-    for( size_t i = 0; i < n; ++i ) chk(b0 + static_cast<i64>(i), out[i], order_base + blk * B + i, lv);
+    int sig = guarded([&]{ s->fm_un_range(op, b0, n, out.data()); });
+    for( size_t i = 0; i < n; ++i )
+      {
+      i64 x = b0 + static_cast<i64>(i);
+      if( sig ) { i64 g = 0; int sg = guarded([&]{ g = s->fm_un(op, x); }); if( sg ) { report_trap(rec, lv, s, false, op, x, 0, sg, order_base + blk * B + i); continue; } out[i] = g; }
+      chk(x, out[i], order_base + blk * B + i, lv);
+      }
     });
   rec.add_states(total, total, total);
   return total;
@@ -201,8 +220,12 @@ template<typename Chk> u64 sweep_pairs(Shim* s, int op, std::vector<i64> const& 
   parallel_blocks(A.size(), threads, [&](size_t ia, int) {
     LocalViol lv(rec);
     std::vector<i64> out(Bv.size());
-    s->fm_bin_row(op, A[ia], Bv.data(), Bv.size(), out.data());
-    for( size_t ib = 0; ib < Bv.size(); ++ib ) chk(A[ia], Bv[ib], out[ib], order_base + ia * Bv.size() + ib, lv);
+    int sig = guarded([&]{ s->fm_bin_row(op, A[ia], Bv.data(), Bv.size(), out.data()); });
+    for( size_t ib = 0; ib < Bv.size(); ++ib )
+      {
+      if( sig ) { i64 g = 0; int sg = guarded([&]{ g = s->fm_bin(op, A[ia], Bv[ib]); }); if( sg ) { report_trap(rec, lv, s, true, op, A[ia], Bv[ib], sg, order_base + ia * Bv.size() + ib); continue; } out[ib] = g; }
+      chk(A[ia], Bv[ib], out[ib], order_base + ia * Bv.size() + ib, lv);
+      }
     });
   u64 n = static_cast<u64>(A.size()) * Bv.size();
   rec.add_states(n, n, n);
